@@ -442,3 +442,65 @@ theorem faceRel_runOps {ops ops' : List WOp} (h : FaceRel ops ops') : runOps ops
   have := faceRel_total h {}
   rw [← twTotal_flush, ← twTotal_flush] at this
   exact this
+
+/-- related operation lists leave the trim flag in the same position -/
+theorem faceRel_flag {ops ops' : List WOp} (h : FaceRel ops ops') :
+    ∀ t : TW, (TW.run t ops).1.trim = (TW.run t ops').1.trim := by
+  induction h with
+  | nil => intro t; rfl
+  | keep op _ ih => intro t; simp only [TW.run]; exact ih _
+  | @fuse u a a' hu _ ih =>
+    intro t
+    simp only [TW.run, TW.step]
+    have hp := (twTotal_pending a' (if t.trim then trimLeftSpace (trimRightSpace u) else trimRightSpace u) false (by
+      cases t.trim
+      · simp only [Bool.false_eq_true, if_false]; exact trimRightSpace_idem _
+      · simp only [if_true]; rw [← hu]; exact trimRightSpace_idem _)).2
+    rw [hp]
+    exact ih _
+
+/-- `Render` of two root sequences with related traces: the same outcome, and after a normal end
+    the same output -/
+theorem faceRel_root (c : RCtx) {a b : List Node} (h : GPair FaceRel (renderList c a) (renderList c b)) (env : Env) :
+    (renderRoot c a env).runPure.2 = (renderRoot c b env).runPure.2 ∧
+    ∀ out, (renderRoot c a env).runPure = (out, .ok .done) → (renderRoot c b env).runPure = (out, .ok .done) := by
+  obtain ⟨ops, ops', o, h1, h2, r⟩ := h env
+  rw [renderRoot_of_traced c a env ops o h1.toTracedAt, renderRoot_of_traced c b env ops' o h2.toTracedAt]
+  refine ⟨rootResult_snd _ _ o, fun out ho => ?_⟩
+  obtain ⟨⟨env', rfl⟩, rfl⟩ := rootResult_done _ _ _ ho
+  simp only [rootResult, faceRel_runOps r]
+
+/-- a block body (sequence, then flush) with related traces, from ANY state: when one ends
+    normally so does the other, having written the same bytes and leaving the same state -/
+theorem faceRel_block (c : RCtx) {a b : List Node} (h : GPair FaceRel (renderList c a) (renderList c b)) (s s' : RS)
+    (out : Bytes) (hd : (renderBlockBody c a s).runPure = (out, .ok (.done, s'))) :
+    (renderBlockBody c b s).runPure = (out, .ok (.done, s')) := by
+  obtain ⟨env, tw⟩ := s
+  obtain ⟨ops, ops', o, h1, h2, r⟩ := h env
+  cases o with
+  | ok st env' =>
+    cases st with
+    | done =>
+      rw [tracedAt_blockBody_done c a env env' ops h1.toTracedAt tw] at hd
+      rw [tracedAt_blockBody_done c b env env' ops' h2.toTracedAt tw]
+      rw [twTotal_flush, tw_run_flush_state] at hd ⊢
+      rw [← faceRel_total r, ← faceRel_flag r]
+      exact hd
+    | brk e =>
+      rw [tracedAt_blockBody_other c a env ops _ h1.toTracedAt (by intro _ h; cases h) tw] at hd
+      simp [EOut.withTw] at hd
+    | cont e =>
+      rw [tracedAt_blockBody_other c a env ops _ h1.toTracedAt (by intro _ h; cases h) tw] at hd
+      simp [EOut.withTw] at hd
+  | err e =>
+    rw [tracedAt_blockBody_other c a env ops _ h1.toTracedAt (by intro _ h; cases h) tw] at hd
+    simp [EOut.withTw] at hd
+  | panic w =>
+    rw [tracedAt_blockBody_other c a env ops _ h1.toTracedAt (by intro _ h; cases h) tw] at hd
+    simp [EOut.withTw] at hd
+  | unmodelled w =>
+    rw [tracedAt_blockBody_other c a env ops _ h1.toTracedAt (by intro _ h; cases h) tw] at hd
+    simp [EOut.withTw] at hd
+
+/-- the two kinds of fusion together: first texts before `{{-`, then `-}}` before texts -/
+def faceText (nodes : List Node) : List Node := faceR (faceL nodes)
